@@ -391,20 +391,28 @@ pub(crate) fn install_clen_code(state: &mut State<'_>) {
     state.len_table = Table { codes: Codes::Codes, bits: 3 };
 }
 
-/// One run-length item (code 16, 17 or 18) of the code-length sequence: the code itself is concrete and already in the
-/// bit register, its extra bits are a symbolic input byte (or missing: N_IN = 0), `r` lengths are still outstanding.
-fn codelens_instance(sym: u16, r: usize, n_in: usize, extra_val: u8) {
-    const TOTAL: usize = 257 + 3; // HLIT = 257, HDIST = 3
-    // the repeat count is concrete per instance (a symbolic count makes `fill` a symbolic-length store into the 14 KB
-    // decoder state: out of memory at 20 GB); the carried lengths stay symbolic
-    let input: [u8; 1] = [extra_val];
+/// One run-length item (code 16, 17 or 18) of the code-length sequence.  The 3-bit code is concrete (R11) and sits in the bit
+/// register together with `KBITS` of its extra bits; the remaining extra bits come from `N_IN` symbolic input bytes.  `R`
+/// lengths are still outstanding.  With all bits present: exactly `rep` copies are stored, nothing beyond them, a run ending
+/// exactly at HLIT+HDIST is accepted, one more is rejected.  With bits missing: the call suspends and the register, the progress
+/// counter and the stored lengths are untouched (so the resumed call sees the whole item again).
+fn codelens_item<const SYM: u16, const R: usize, const KBITS: u32, const N_IN: usize>() {
+    const NLEN: usize = 257;
+    const NDIST: usize = 30;
+    const TOTAL: usize = NLEN + NDIST;
+    let (code_bits, extra, base): (u64, u32, usize) = match SYM {
+        16 => (5, 2, 3),
+        17 => (3, 3, 3),
+        _ => (7, 7, 11),
+    };
+    let input: [u8; 1] = kani::any();
     let mut out = [0u8; 4];
     let mut win = [0u8; 8 + 64];
     let mut state = typed_state(&mut win, 0, Mode::CodeLens);
     install_clen_code(&mut state);
-    state.nlen = 257;
-    state.ndist = 3;
-    let have0 = TOTAL - r;
+    state.nlen = NLEN;
+    state.ndist = NDIST;
+    let have0 = TOTAL - R;
     state.have = have0;
     let prev: u16 = kani::any();
     kani::assume(prev <= 2);
@@ -417,35 +425,45 @@ fn codelens_instance(sym: u16, r: usize, n_in: usize, extra_val: u8) {
             kani::assume(eob == prev);
         }
     }
-    // the 3-bit code, LSB-first as it sits in the register: 16 = 101 -> 5, 17 = 110 -> 3, 18 = 111 -> 7
-    let (code_bits, extra, base): (u64, u32, usize) = match sym {
-        16 => (5, 2, 3),
-        17 => (3, 3, 3),
-        _ => (7, 7, 11),
-    };
-    state.bit_reader.prime(3, code_bits);
-    unsafe { state.bit_reader.update_slice(input.as_ptr(), n_in) };
-    state.in_available = n_in;
+    // canaries: the outstanding slots and the one after them start as 0x0909 (never a value this code stores)
+    let mut k = have0;
+    while k <= TOTAL {
+        state.lens[k] = 0x0909;
+        k += 1;
+    }
+    let xreg: u64 = if KBITS == 0 { 0 } else { kani::any() };
+    kani::assume(xreg < (1 << KBITS));
+    if KBITS == 0 {
+        state.bit_reader.prime(3, code_bits); // syntactically concrete register (R11)
+    } else {
+        state.bit_reader.prime(3 + KBITS as u8, code_bits | (xreg << 3));
+    }
+    unsafe { state.bit_reader.update_slice(input.as_ptr(), N_IN) };
+    state.in_available = N_IN;
     state.writer = unsafe { Writer::new_uninit(out.as_mut_ptr(), 0) };
-    // Z_TREES: the call returns right after the tables are built, so the decoder's main loop runs exactly once
+    // Z_TREES: the call returns right after the tables are built
     state.flush = InflateFlush::Trees;
     let rc = state.dispatch();
-    if n_in == 0 {
-        // the extra bits are missing: suspend with the code still in the register, nothing stored
+    let complete = KBITS as usize + 8 * N_IN >= extra as usize;
+    if !complete {
+        // the extra bits are missing: suspend; nothing of the item may be consumed
         assert!(rc == ReturnCode::Ok && matches!(state.mode, Mode::CodeLens));
         assert!(state.have == have0);
-        assert!(state.bit_reader.bits_in_buffer() == 3 && state.bit_reader.hold() == code_bits, "an incomplete item must stay in the bit register");
-        kani::cover!(true);
+        assert!(state.bit_reader.bits_in_buffer() as u32 == 3 + KBITS + 8 * N_IN as u32, "an incomplete item must stay in the bit register");
+        assert!(state.bit_reader.hold() & 7 == code_bits && (state.bit_reader.hold() >> 3) & ((1 << KBITS) - 1) == xreg);
+        assert!(state.lens[have0] == 0x0909);
     } else {
-        let rep = base + (input[0] as usize & ((1 << extra) - 1));
-        let val = if sym == 16 { prev } else { 0 };
+        let all = xreg | ((input[0] as u64) << KBITS);
+        let rep = base + (all & ((1 << extra) - 1)) as usize;
+        let val = if SYM == 16 { prev } else { 0 };
         if have0 + rep > TOTAL {
-            assert!(rc == ReturnCode::DataError && matches!(state.mode, Mode::Bad), "repeat past HLIT+HDIST");
+            assert!(rc == ReturnCode::DataError && matches!(state.mode, Mode::Bad), "repeat past HLIT+HDIST is rejected");
         } else {
-            // stored exactly `rep` copies
+            // stored exactly `rep` copies, nothing after them
             let j: usize = kani::any();
             kani::assume(j < rep);
             assert!(state.lens[have0 + j] == val);
+            assert!(state.lens[have0 + rep] == 0x0909 || have0 + rep == TOTAL);
             if have0 + rep == TOTAL {
                 let eob_len = if have0 > 256 { eob } else { val };
                 if eob_len == 0 {
@@ -454,20 +472,24 @@ fn codelens_instance(sym: u16, r: usize, n_in: usize, extra_val: u8) {
                     assert!(rc == ReturnCode::Ok && matches!(state.mode, Mode::Len_), "a run may end exactly at HLIT+HDIST");
                     assert!(state.have == TOTAL);
                 }
+            } else if N_IN == 0 {
+                // nothing left in the register: the next item suspends at once
+                assert!(rc == ReturnCode::Ok && matches!(state.mode, Mode::CodeLens) && state.have == have0 + rep);
             } else {
-                // more lengths to come; whatever follows in the leftover bits is decoded by the same rules
+                // whatever follows in the leftover bits is decoded by the same rules
                 assert!(matches!(rc, ReturnCode::Ok | ReturnCode::DataError));
                 assert!(state.have >= have0 + rep || matches!(state.mode, Mode::Bad));
             }
         }
-        kani::cover!(have0 + rep != TOTAL || rc == ReturnCode::Ok, "a run ends exactly at HLIT+HDIST");
-        kani::cover!(have0 + rep <= TOTAL || rc == ReturnCode::DataError);
     }
+    kani::cover!(rc == ReturnCode::Ok, "accepted or suspended");
+    kani::cover!(!complete || rc == ReturnCode::DataError, "a run past HLIT+HDIST is reachable");
+    kani::cover!(!complete || matches!(state.mode, Mode::Len_), "a run ending exactly at HLIT+HDIST is reachable");
     core::mem::forget(state);
 }
 
 macro_rules! codelens_harness {
-    ($name:ident, $sym:expr, $r:expr, $n_in:expr, $x:expr) => {
+    ($name:ident, $sym:expr, $r:expr, $k:expr, $n_in:expr) => {
         #[kani::proof]
         #[kani::unwind(14)]
         #[kani::stub(crate::inflate::inftrees::inflate_table, stub_table_ok)]
@@ -478,21 +500,18 @@ macro_rules! codelens_harness {
         #[kani::stub(crate::inflate::State::len_and_friends, stub_laf_suspends)]
         #[kani::stub(crate::inflate::writer::Writer::copy_match, stub_copy_match_unreachable)]
         #[kani::stub(crate::inflate::writer::Writer::extend_from_window, stub_efw_unreachable)]
-        #[kani::stub(<[u16]>::fill, stub_fill_u16_runs)]
+        #[kani::stub(<[u16]>::fill, stub_fill_loop)]
         fn $name() {
-            codelens_instance($sym, $r, $n_in, $x);
+            codelens_item::<$sym, $r, $k, $n_in>();
         }
     };
 }
-// (code, lengths outstanding, input bytes, value of the extra bits): exact end, overrun by one, one short
-codelens_harness!(ki5c_codelens_16_exact, 16, 4, 1, 1);
-codelens_harness!(ki5c_codelens_16_over, 16, 3, 1, 1);
-codelens_harness!(ki5c_codelens_17_exact, 17, 6, 1, 3);
-codelens_harness!(ki5c_codelens_17_over, 17, 5, 1, 3);
-codelens_harness!(ki5c_codelens_17_short, 17, 7, 1, 3);
-codelens_harness!(ki5c_codelens_18_exact, 18, 11, 1, 0);
-codelens_harness!(ki5c_codelens_18_exact_long, 18, 12, 1, 1);
-codelens_harness!(ki5c_codelens_18_over, 18, 11, 1, 1);
+// (code, lengths outstanding, extra bits already in the register, input bytes).  The register holds exactly the concrete code
+// (a symbolic register makes the table entry symbolic and every arm of the item decoder live: symex did not finish in 15 min);
+// all extra bits come from the symbolic input byte, or are missing.
+codelens_harness!(ki5c_codelens_16_item, 16, 5, 0, 1); // rep 3..=6 against 5 outstanding: short, exact, over
+codelens_harness!(ki5c_codelens_17_item, 17, 7, 0, 1); // rep 3..=10 against 7
+codelens_harness!(ki5c_codelens_18_item, 18, 20, 0, 1); // rep 11..=138 against 20
 codelens_harness!(ki5c_codelens_16_suspend, 16, 5, 0, 0);
-codelens_harness!(ki5c_codelens_17_suspend, 17, 5, 0, 0);
+codelens_harness!(ki5c_codelens_17_suspend, 17, 7, 0, 0);
 codelens_harness!(ki5c_codelens_18_suspend, 18, 20, 0, 0);
